@@ -6,7 +6,7 @@ import sys
 import time
 
 from . import tasksim
-from .check import VERIF, derive_seed, load_known, match_known, signature
+from .check import VERIF, EVIDENCE_DIR, REPLAY_DIR, derive_seed, load_known, match_known, signature
 from .pool import Pool
 from . import session as SS
 
@@ -118,8 +118,8 @@ def main(argv, tier, base_seed):
                         hist, trials = shrink_history(pool, s, tier, world, hist, v["oracle"])
                     except Exception as e:
                         print("HARNESS: shrink failed:", e)
-                os.makedirs(os.path.join(VERIF, "replays"), exist_ok=True)
-                path = os.path.join(VERIF, "replays", f"C04-{s}.json")
+                os.makedirs(REPLAY_DIR, exist_ok=True)
+                path = os.path.join(REPLAY_DIR, f"C04-{s}.json")
                 with open(path, "w") as fp:
                     json.dump({"format": 1, "property": "C04", "seed": s, "tier": tier, "world": world, "histories": [hist] if hist else None,
                                "verdict": v, "shrink_trials": trials}, fp, indent=1)
@@ -156,8 +156,8 @@ def main(argv, tier, base_seed):
             "assumptions": ["values compared at 1e-9 x (largest |value| among the 21 singleton results): components that are identically zero carry only rounding noise",
                             "stub calculators expose exactly the attributes the contribution classes read (v_array, t_array, freq_array, mode_gamma, weights, pressures, heat capacity, static_p_array)"],
         }
-        os.makedirs(os.path.join(VERIF, "evidence"), exist_ok=True)
-        with open(os.path.join(VERIF, "evidence", "C04.json"), "w") as fp:
+        os.makedirs(EVIDENCE_DIR, exist_ok=True)
+        with open(os.path.join(EVIDENCE_DIR, "C04.json"), "w") as fp:
             json.dump(ev, fp, indent=1, default=str)
         print(f"C04 {tier}: {done} worlds, {agg['runs']} request histories, {len(violations)} violations, {len(harness)} harness errors, {wall:.1f}s")
         return rc
